@@ -159,7 +159,7 @@ def check_property(pid, tier, jobs, seed=0, meta=None, verbose=False, budget_s=N
     results = run_jobs(jobs, verbose=verbose, total_budget_s=budget_s or float(os.environ.get('VERIF_BUDGET', 0) or (420 if tier == 'quick' else 3600)))
     known = load_known()
     violations, known_hits, inconclusive = [], [], []
-    tot = dict(paths=0, forks=0, checks=0, solver_s=0.0, obligations=0, discharged=0, sat=0, unknown=0, xval_ok=0, xval_inexact=0,
+    tot = dict(paths=0, forks=0, checks=0, solver_s=0.0, obligations=0, discharged=0, sat=0, unknown=0, xval_ok=0, xval_inexact=0, xval_skipped=0,
                exc_paths={}, unconfirmed=0)
     samples = []
     jobstats = []
@@ -167,7 +167,7 @@ def check_property(pid, tier, jobs, seed=0, meta=None, verbose=False, budget_s=N
     funcs = set()
     for j, r in zip(jobs, results):
         funcs.update(j.funcs)
-        for k in ('paths', 'forks', 'checks', 'solver_s', 'obligations', 'discharged', 'sat', 'unknown', 'xval_ok', 'xval_inexact'):
+        for k in ('paths', 'forks', 'checks', 'solver_s', 'obligations', 'discharged', 'sat', 'unknown', 'xval_ok', 'xval_inexact', 'xval_skipped'):
             tot[k] += getattr(r, k)
         tot['unconfirmed'] += len(r.unconfirmed)
         for k, v in r.exc_paths.items():
@@ -241,6 +241,7 @@ def check_property(pid, tier, jobs, seed=0, meta=None, verbose=False, budget_s=N
             solver_seconds=round(tot['solver_s'], 2),
             exception_paths=tot['exc_paths'],
             xval_inexact=tot['xval_inexact'],
+            xval_skipped=tot['xval_skipped'],
             unconfirmed_witnesses=tot['unconfirmed'],
             known_findings_hit=sorted(seen),
             functions_encoded=H.source_hashes(sorted(funcs)),
@@ -258,9 +259,9 @@ def check_property(pid, tier, jobs, seed=0, meta=None, verbose=False, budget_s=N
     os.makedirs(EVID, exist_ok=True)
     with open(os.path.join(EVID, "%s.json" % pid), 'w') as f:
         json.dump(ev, f, indent=1, default=str)
-    print("%s %s: jobs=%d paths=%d obligations=%d discharged=%d sat=%d known=%d violations=%d inconclusive=%d xval=%d wall=%.1fs" % (
+    print("%s %s: jobs=%d paths=%d obligations=%d discharged=%d sat=%d known=%d violations=%d inconclusive=%d xval=%d xval_inexact=%d wall=%.1fs" % (
         pid, tier, len(jobs), tot['paths'], tot['obligations'], tot['discharged'], tot['sat'], len(known_hits), len(vio_paths),
-        len(inconclusive), tot['xval_ok'], wall))
+        len(inconclusive), tot['xval_ok'], tot['xval_inexact'], wall))
     if vio_paths:
         return 1
     if inconclusive:
